@@ -3,7 +3,7 @@
    FeArray operator with the operands in the written order"; and numpy is told to defer
    `ndarray <op> field` to the reflected methods. *)
 From Coq Require Import List Arith Bool Lia.
-From EFModel Require Import C12_FeShape C12_FeTensor C12_FeProofs.
+From EFModel Require Import C12_FeShape C12_FeTensor C12_FeProofs C12_FeField.
 From EFP Require Import Gen_Field.
 Import ListNotations.
 
@@ -44,3 +44,9 @@ Proof.
   destruct (is_fe V x || is_fe V y); simpl; (split; [reflexivity | intros k; apply C]).
 Qed.
 Print Assumptions fe_ufunc2_comm.
+
+(* the (node, dof) sweep on one Field object: every __call__ returns the array of the state reached
+   (specification without hidden state); a memo keyed on the node alone is refuted *)
+Definition C12_field_call_depends_on_current_state_only := call_depends_on_current_state_only.
+Definition C12_field_memo_by_node_refuted := memo_by_node_refuted.
+Print Assumptions call_depends_on_current_state_only.
